@@ -47,6 +47,9 @@ CLAIMED["C03"]=("Bounded symbolic execution of the real evalPanFuncCall / assign
 CLAIMED["C06"]=("Bounded symbolic execution of every built-in and native property reachable from the prototype chains of 10 live values (solver-chosen property name and argument), with a deep pointer-identity fingerprint of all live values compared after each operation, plus two-step sequences on arrays that share a receiver (first result fingerprinted, then a second array-building operation) with symbolic payloads; on every feasible path the fingerprints are discharged equal. Slice growth and spare capacity are those of the real runtime.",
         TRUST,
         "SMT-decided bounded symbolic execution of go/ssa (z3); operations enumerated by solver-decided choices, heap fingerprint oracle")
+CLAIMED["C19"]=("Bounded symbolic execution of the real evaluator over the shared world as one inductive step: everything reachable from the constants environment is fingerprinted, a history program from a 14-program family runs in a fresh scope, and a solver-chosen later program must give the same value, error message and stack trace as before while the fingerprint stays equal; plus the real runscript.setup + runTest on solver-chosen pairs of test files (no variable leaks to the next file).",
+        TRUST,
+        "SMT-decided bounded symbolic execution of go/ssa (z3); inductive step over a fingerprint of shared state")
 NA={
 }
 DEFAULT_NA="check under construction in this session (engine exists; harness not yet registered)"
